@@ -48,7 +48,7 @@ func (f *file) ReadAt(b []byte, off int64) (n int, err error) {
 
 func (f *file) ReadDir(n int) ([]hackpadfs.DirEntry, error) {
 	entries, err := f.osFile.ReadDir(n)
-	return entries, f.fs.wrapErr(err)
+	return f.fs.wrapDirEntries(entries), f.fs.wrapErr(err)
 }
 
 func (f *file) ReadFrom(r io.Reader) (n int64, err error) {
